@@ -219,10 +219,29 @@ def order_key(order, sids):
     return lambda r: (idx.get(r.sid, len(sids)), r.ts)
 
 
+def split_paths(out):
+    """a query result -> (result of the row path Pull, result of the columnar path PullBatch). The drivers print
+    the second one (after " #B") only when it differs from the first."""
+    i = out.find(" #B")
+    if i < 0:
+        return out, out
+    return out[:i], "R" + out[i + 3:]
+
+
 def check_query(rp, ev, out, norm=norm_written, payload=True):
-    """C02 predicate on one query result. Returns None or a message."""
+    """C02 predicate on one query result, for both read paths. Returns None or a message."""
     if not out.startswith("R"):
         return "query failed: " + out[:200]
+    rowp, batchp = split_paths(out)
+    m = check_query_path(rp, ev, rowp, norm, payload)
+    if m is None and batchp != rowp:
+        m = check_query_path(rp, ev, batchp, norm, payload)
+        if m is not None:
+            m = "columnar read path (PullBatch; the row path Pull is right): " + m
+    return m
+
+
+def check_query_path(rp, ev, out, norm=norm_written, payload=True):
     rows = [parse_row(t) for t in out.split()[1:]]
     best = expected_groups(rp, ev, norm)
     seen = set()
@@ -266,24 +285,29 @@ def compare_outputs(line, g, l, norm=norm_written, canon=None):
             continue
         if not (a.startswith("R") and b.startswith("R")):
             return False
-        ra, rb = a.split()[1:], b.split()[1:]
-        if len(ra) != len(rb):
-            return False
         if rp is None:
             rp = Replay(line)
         ev = rp.events[i]
-        ties = tie_keys(rp, ev, norm)
-        for x, y in zip(ra, rb):
-            if x == y:
+        ties = None
+        for pa, pb in zip(split_paths(a), split_paths(b)):     # row path, columnar path
+            if pa == pb:
                 continue
-            rx, ry = parse_row(x), parse_row(y)
-            if (rx.sid, rx.ts, rx.ver) != (ry.sid, ry.ts, ry.ver):
+            ra, rb = pa.split()[1:], pb.split()[1:]
+            if len(ra) != len(rb):
                 return False
-            if rx.key() in ties:
-                continue
-            if canon is not None and canon(rp, ev, rx) == canon(rp, ev, ry):
-                continue
-            return False
+            if ties is None:
+                ties = tie_keys(rp, ev, norm)
+            for x, y in zip(ra, rb):
+                if x == y:
+                    continue
+                rx, ry = parse_row(x), parse_row(y)
+                if (rx.sid, rx.ts, rx.ver) != (ry.sid, ry.ts, ry.ver):
+                    return False
+                if rx.key() in ties:
+                    continue
+                if canon is not None and canon(rp, ev, rx) == canon(rp, ev, ry):
+                    continue
+                return False
     return True
 
 
@@ -510,6 +534,96 @@ def case_big(rng, kind, cfg_len=8192):
     return "%s %s ; %s" % (kind, S_C02, h.text())
 
 
+BATCH_ROWS = 4096     # mergeBatchMaxRows (query_batch.go); tied in Tie/C02.lean batch_rows_tie
+
+
+def case_batch(rng, kind, batch_rows=BATCH_ROWS):
+    """the columnar read path cuts its output into batches of mergeBatchMaxRows rows: series of a little more than
+    one (or two) batches, with (series, timestamp) keys written two or three times - in different parts - exactly
+    at the rows in front of / at / behind a batch boundary, in ascending and descending order, over full and
+    shifted ranges (a shifted start moves every boundary)"""
+    sids = rng.choice([[1], [7], [1, 2], [3, U64 - 1]])
+    h = Hist(rng)
+    parts = [[], [], []]
+    t0 = rng.choice([1, -5000, 1000])
+    step = rng.choice([1, 1, 3])
+    nmax = 0
+    for sid in sids:
+        n = batch_rows * rng.choice([1, 1, 1, 2]) + rng.choice([-1, 0, 1, 2, 3, 700])
+        nmax = max(nmax, n)
+        base = [Row(sid, t0 + i * step, rng.choice([1, 2, 3]), ["s41", "i%d" % i]) for i in range(n)]
+        parts[0] += base
+        # output positions (0-based) around every boundary, counted from the front (ta) and from the back (td),
+        # also for queries that start 1..3 rows later
+        pos = set()
+        for b in range(batch_rows, n + 4, batch_rows):
+            for d in (-2, -1, 0, 1):
+                for shift in rng.sample([0, 0, 1, 2, 3], 2):
+                    pos.add(b + d + shift)
+                    pos.add(n - 1 - (b + d))
+        pos = [p_ for p_ in pos if 0 <= p_ < n]
+        for p_ in rng.sample(pos, min(len(pos), rng.choice([1, 2, 4, len(pos)]))):
+            r = base[p_]
+            parts[1].append(Row(sid, r.ts, rng.choice([1, 2, 3, 4]), ["s42", "i%d" % (100000 + p_)]))
+            if rng.random() < 0.4:
+                parts[2].append(Row(sid, r.ts, rng.choice([1, 2, 3, 4, 5]), ["s43", "i%d" % (200000 + p_)]))
+        for p_ in rng.sample(range(n), rng.choice([0, 3, 30])):          # a few more duplicates anywhere
+            parts[1].append(Row(sid, base[p_].ts, rng.choice([1, 2, 3, 4]), ["s44", "i%d" % (300000 + p_)]))
+    order = [0, 1, 2]
+    rng.shuffle(order)
+    for i in order:
+        if parts[i]:
+            rows = list(parts[i])
+            rng.shuffle(rows)
+            h.batch(0, rows)
+    lo, hi = t0 - 1, t0 + nmax * step + 1
+    if rng.random() < 0.4:
+        h.flush(rng.sample(h.mem, rng.randint(1, len(h.mem))))
+    qsids = list(sids)
+    h.query(0, qsids, lo, hi, "ta")
+    h.query(0, qsids, lo, hi, "td")
+    d = rng.choice([1, 2, 3])
+    h.query(0, qsids, t0 + d * step, hi, "ta")
+    h.query(0, qsids, lo, t0 + (nmax - 1 - d) * step, rng.choice(["td", "s"]))
+    if rng.random() < 0.5:
+        pool = h.file if len(h.file) > 1 else h.mem
+        if len(pool) > 1:
+            h.merge(rng.sample(pool, 2))
+            h.query(0, qsids, lo, hi, rng.choice(["ta", "td"]))
+    return "%s %s ; %s" % (kind, S_C02, h.text())
+
+
+def case_many(rng, kind):
+    """thousands of series in one part (more than one primary block of block metadata): the newest copy of a point of a
+    series that sorts early lives in the big part, older/newer copies in a small part; queries that start after every
+    other timestamp of the big part (the part-level min/max timestamps decide whether getParts keeps a part)"""
+    n = rng.choice([3000, 4500])
+    t_old, t_new = rng.choice([(100, 200), (-50, 1000), (5, 6)])
+    hot = sorted(rng.sample(range(1, 40), rng.choice([1, 3])))
+    vbig, vsmall = rng.choice([(2, 1), (2, 1), (1, 2), (3, 3)])
+    big = [Row(s_, t_old, 1, ["s41", "i%d" % s_]) for s_ in range(1, n + 1)]
+    big += [Row(s_, t_new, vbig, ["s42", "i%d" % (100000 + s_)]) for s_ in hot]
+    small = [Row(s_, t_new, vsmall, ["s43", "i%d" % (200000 + s_)]) for s_ in hot]
+    if rng.random() < 0.5:
+        small += [Row(s_, t_old - 7, 1, ["s44", "i%d" % (300000 + s_)]) for s_ in hot]
+    h = Hist(rng)
+    for rows in ([big, small] if rng.random() < 0.5 else [small, big]):
+        h.batch(0, rows)
+    probe = hot + [n]
+
+    def ask():
+        h.query(0, probe, t_old + 1, t_new + 5, "ta")
+        h.query(0, probe, t_new, t_new, rng.choice(["td", "s"]))
+        h.query(0, probe, t_old - 10, t_new + 10, rng.choice(["ta", "td"]))
+    ask()
+    h.flush(list(h.mem))
+    ask()
+    h.merge(list(h.file))
+    ask()
+    return "%s %s ; %s" % (kind, S_C02, h.text())
+
+
+
 # ----------------------------------------------------------------------------------------------
 # shrinker (delta debugging on rows, then on ops)
 
@@ -632,7 +746,9 @@ class C02(StoreSpec):
     def cases(self, rng, n):
         out = []
         nbig = 6 if n < 10000 else 60
-        for i in range(n - nbig):
+        nbat = 8 if n < 10000 else 120
+        nmany = 2 if n < 10000 else 20
+        for i in range(n - nbig - nbat - nmany):
             r = rng.random()
             if r < 0.55:
                 out.append(case_history(rng, "dup"))
@@ -646,6 +762,10 @@ class C02(StoreSpec):
                 out.append(case_history(rng, "long", nrows=rng.choice([60, 120, 250])))
         for i in range(nbig):
             out.append(case_big(rng, "big"))
+        for i in range(nbat):
+            out.append(case_batch(rng, "bat"))
+        for i in range(nmany):
+            out.append(case_many(rng, "many"))
         return out
 
     def directed(self, rng, seeds, n):
@@ -684,8 +804,8 @@ class C02(StoreSpec):
             halves.append(cur)
             if len(halves) == 2 and halves[0] and halves[1]:
                 (e1, o1), (e2, o2) = halves[0][0], halves[1][0]
-                k1 = [(r.sid, r.ts, r.ver) for r in map(parse_row, o1.split()[1:])]
-                k2 = [(r.sid, r.ts, r.ver) for r in map(parse_row, o2.split()[1:])]
+                k1 = [(r.sid, r.ts, r.ver) for r in map(parse_row, split_paths(o1)[0].split()[1:])]
+                k2 = [(r.sid, r.ts, r.ver) for r in map(parse_row, split_paths(o2)[0].split()[1:])]
                 if e1[2:6] == e2[2:6] and k1 != k2:
                     return ("violation", "same rows, two arrival orders/schedules, different winners: %s vs %s" % (o1[:150], o2[:150]))
         return None
